@@ -17,8 +17,8 @@ var rules = []*Rule{
 	{ID: "R2", Title: "FS-ORDER: multi-step file protocols keep a recoverable order", Props: []string{"C05", "C11", "C02", "C01", "C17", "C12", "C07", "C06"}, Run: func(p *Prog) []Ob {
 		return append(append(append(append(ruleR2(p), p.overrideTargetObligations()...), p.removeRemovesLog()), p.atomicReplace()...), append(append(append(p.recoverReplaces(), append(p.recoverBeforeMigrate(), p.recoverOnOpen()...)...), p.whoMayRemoveSegment()...), p.migrateBeforeOpen()...)...)
 	}},
-	{ID: "R3", Title: "LOCKSET: every shared mutable field has a common guard", Props: []string{"C08", "C09", "C03", "C04", "C02", "C12"}, Run: func(p *Prog) []Ob {
-		return append(append(append(ruleR3(p), ruleR3c(p)...), p.publishOrder()...), p.headIsLast()...)
+	{ID: "R3", Title: "LOCKSET: every shared mutable field has a common guard", Props: []string{"C08", "C09", "C03", "C04", "C02", "C12", "C20"}, Run: func(p *Prog) []Ob {
+		return append(append(append(ruleR3(p), ruleR3c(p)...), p.publishOrder()...), append(p.headIsLast(), p.noSharedScratch()...)...)
 	}},
 	{ID: "R6", Title: "SENTINEL-IDENTITY: compared sentinels arrive unwrapped and alive", Props: []string{"C03", "C04", "C09", "C10", "C12"}, Run: ruleR6},
 	{ID: "R7", Title: "TAXONOMY and GUARDS", Props: []string{"C04", "C03", "C07", "C09", "C10", "C11", "C12", "C14", "C19"}, Run: ruleR7},
@@ -58,7 +58,7 @@ var rules = []*Rule{
 		return append(append(append(ruleR20(p), p.closeBeforeReplace()...), p.filesUnderALogLock()...), append(p.queriesKeepNoState(), p.queryStateIsLifecycleState()...)...)
 	}},
 	{ID: "R21", Title: "HEAD-SCAN-BOUND", Props: []string{"C08"}, Run: ruleR21},
-	{ID: "R9", Title: "FORMAT-TABLES: encoder = decoder = documented layout", Props: []string{"C13", "C17", "C11", "C09", "C04", "C01", "C10"}, Run: func(p *Prog) []Ob { return append(ruleR9(p), p.headerFlagsExact()...) }},
+	{ID: "R9", Title: "FORMAT-TABLES: encoder = decoder = documented layout", Props: []string{"C13", "C17", "C11", "C09", "C04", "C01", "C10", "C07"}, Run: func(p *Prog) []Ob { return append(ruleR9(p), p.headerFlagsExact()...) }},
 	{ID: "R24", Title: "USE-AFTER-ERROR: placeholder results of failed calls never reach a success", Props: []string{"C01", "C02", "C03", "C04", "C06", "C07", "C08", "C09", "C10", "C12", "C13", "C20"}, Run: ruleR24},
 	{ID: "R25", Title: "BACKUP-COMPLETENESS", Props: []string{"C20", "C11"}, Run: func(p *Prog) []Ob { return append(ruleR25(p), p.staleTargetIndexRemoved()...) }},
 	{ID: "R26", Title: "HEAD-INDEX-LIVENESS", Props: []string{"C03", "C08", "C19"}, Run: func(p *Prog) []Ob { return append(ruleR26(p), p.prebuiltIndexStays()...) }},
